@@ -23,6 +23,7 @@ pub mod c07;
 pub mod c13;
 pub mod c15;
 pub mod c38;
+pub mod c39;
 pub mod c40;
 pub mod keychecks;
 pub mod refchecks;
@@ -52,6 +53,7 @@ pub fn dispatch(id: &str, args: &[String]) -> ! {
         "C13" => c13::run(args),
         "C15" => c15::run(args),
         "C38" => c38::run(args),
+        "C39" => c39::run(args),
         "C40" => c40::run(args),
         "C34" => keychecks::run(args),
         "C16" => refchecks::run("C16", args),
